@@ -334,10 +334,10 @@ def published_gr4j(x1, x2, x3, x4, S, R, q1_init, q9_init, rain, pet):
 # expanding: a 1-ulp difference between Go's pure-Go math.Pow/Tanh and the C libm used by
 # OCaml / Python grows to 1e-7 relative within a dozen steps before it decays again.  Such
 # cases are recognised by MEASURING the sensitivity: the same computation is repeated with
-# all inputs perturbed by a relative 1e-15, and K times the observed change is added to the
-# tolerance of each value.  Well-conditioned cases get no visible slack (K*1e-15 relative).
-PERT = 1.0 + 1e-15
-KCOND = 1000.0
+# all inputs perturbed by a relative 1e-14, and K = 1e4 times the observed change is added to the
+# tolerance of each value.  Well-conditioned cases get no visible slack (K*1e-14 = 1e-10 relative per unit of condition number, below the 1e-9 tolerance).
+PERT = 1.0 + 1e-14
+KCOND = 10000.0
 
 
 def perturb_case(model, ps, rain, pet):
@@ -355,14 +355,31 @@ def conditioned_agree(ri, rm, rp, rtol, atol, K=KCOND):
     rows_i, rows_m, rows_p = ri[1] + [ri[2]], rm[1] + [rm[2]], rp[1] + [rp[2]]
     if [len(r) for r in rows_i] != [len(r) for r in rows_m] or [len(r) for r in rows_m] != [len(r) for r in rows_p]:
         return 'shape'
-    for k, (a, b, p) in enumerate(zip(rows_i, rows_m, rows_p)):
-        for t, (x, y, z) in enumerate(zip(a, b, p)):
+    # the sensitivity at time t is the LARGEST change seen up to t in any output (an expanding map keeps
+    # whatever separation it has reached); the final states use the maximum over the whole run
+    T = len(rows_m[0]) if rows_m[:-1] else 0
+    sens_t = []
+    cur = 0.0
+    for t in range(T):
+        for b, p in zip(rows_m[:-1], rows_p[:-1]):
+            d = abs(b[t] - p[t]) if (math.isfinite(b[t]) and math.isfinite(p[t])) else float('inf')
+            cur = max(cur, d)
+        sens_t.append(cur)
+    for b, p in zip([rows_m[-1]], [rows_p[-1]]):
+        for y, z in zip(b, p):
+            cur = max(cur, abs(y - z) if (math.isfinite(y) and math.isfinite(z)) else float('inf'))
+    for k, (a, b) in enumerate(zip(rows_i, rows_m)):
+        last = (k == len(rows_i) - 1)
+        for t, (x, y) in enumerate(zip(a, b)):
             if x == y:
                 continue
-            if not (math.isfinite(x) and math.isfinite(y) and math.isfinite(z)):
-                if (x != x) and (y != y):
+            if (x != x) and (y != y):
+                continue
+            sv = cur if last else sens_t[t]
+            if not (math.isfinite(x) and math.isfinite(y)):
+                if sv == float('inf'):
                     continue
                 return 'row %d t=%d impl=%r model=%r (non-finite)' % (k, t, x, y)
-            if abs(x - y) > atol + rtol * max(abs(x), abs(y)) + K * abs(y - z):
-                return 'row %d t=%d impl=%r model=%r (sensitivity %r)' % (k, t, x, y, abs(y - z))
+            if abs(x - y) > atol + rtol * max(abs(x), abs(y)) + K * sv:
+                return 'row %d t=%d impl=%r model=%r (sensitivity %r)' % (k, t, x, y, sv)
     return None
